@@ -149,7 +149,15 @@ def main():
                 continue
             meta = json.load(open(os.path.join(d, mid, "meta.json")))
             r = evaluate(os.path.join(d, mid, "patch.diff"), meta["property"])
-            json.dump(r, open(os.path.join(d, mid, "result.json"), "w"), indent=1, sort_keys=True)
+            # a re-run keeps the history of the first evaluation
+            rp = os.path.join(d, mid, "result.json")
+            if os.path.exists(rp):
+                old = json.load(open(rp))
+                for k in ("first_attempt_before_strengthening", "note", "replay_files"):
+                    if k in old and k not in r:
+                        r[k] = old[k]
+            r["rerun_against_repo_with_final_machinery"] = True
+            json.dump(r, open(rp, "w"), indent=1, sort_keys=True)
             print(mid, "->", r.get("caught_by"), r.get("error", ""))
     # leave the unchanged tree's build in place
     sh([os.path.join(VERIF, "check"), "setup"], cwd=VERIF)
